@@ -101,6 +101,20 @@ def check(ctx):
             cuts.append(shells[-1] + 0.3)
             if len(shells) >= 2 and shells[-1] - shells[-2] > 1e-2:
                 cuts.append(shells[-1] - 1e-3)      # just below the largest distance (any "the cutoff is redundant" shortcut must not fire)
+        # several orders in ONE call with a cutoff for the lowest order only: the higher order keeps its whole admissible space
+        if len(cuts) > 1 and N <= (3 if ctx.quick else 4):
+            try:
+                o_ = Symfc(at, cutoff={2: cuts[1]}).compute_basis_set(orders=[2, 3])
+                b3_ = o_.basis_set[3]
+                F3_ = np.asarray(b3_.compression_matrix @ b3_.basis_set)
+                Q3_ = projector_onto_admissible(N, 3, G, near=None)
+                ctx.case({"cell": sc["name"], "orders": [2, 3], "cutoff": {"2": cuts[1]}, "ref_dim_order3": int(Q3_.shape[1]), "impl_dim_order3": int(F3_.shape[1])}, nontrivial=Q3_.shape[1] >= 1)
+                ctx.count("reference-multi-order-call")
+                if F3_.shape[1] != Q3_.shape[1]:
+                    ctx.fail("oracle", "C04/oracle/dimension/order3", f"{sc['name']}: orders [2, 3] in one call with cutoff {{2: {cuts[1]:.4f}}}: the order-3 basis has {F3_.shape[1]} vectors, the admissible space (no cutoff was given for order 3) has dimension {Q3_.shape[1]}",
+                             replay={"cell": sc["name"], "lattice": sc["lattice"].tolist(), "positions": sc["positions"].tolist(), "numbers": [int(x) for x in sc["numbers"]], "orders": [2, 3], "cutoff": {"2": cuts[1]}}, has_input=True)
+            except (IndexError, ValueError):
+                ctx.count("implementation-raised-on-degenerate-cutoff")
         for order in (2, 3, 4):
             if order == 4 and N > 2 or order == 3 and N > (3 if ctx.quick else 4):
                 continue
